@@ -585,6 +585,8 @@ class WorldC:
         evs = [("load", e) for e in C_ELEMENTS]
         if self.last is not None:
             evs += [("EditC",), ("EditA",)]
+        # a consumer INSIDE the library (the robust Poisson solver reads the table for its core models)
+        evs += [("Robust", 1), ("Robust", 8)]
         return evs
 
     def apply(self, ev):
@@ -605,6 +607,32 @@ class WorldC:
             self.last = (c, a)
             self.loaded.append(C_SYMBOL[e])
             return (_h(c), _h(a))
+        if ev[0] == "Robust":
+            from grid.atomgrid import AtomGrid
+            from grid.coulomb import coulomb_potential
+            from grid.onedgrid import GaussLegendre
+            from grid.robust_poisson import solve_poisson_robust
+            from grid.rtransform import BeckeRTransform, InverseRTransform
+
+            z = int(ev[1])
+            sym = {1: "H", 8: "O"}[z]
+            rc, ra = _json_ref(sym)
+            centre = np.array([[0.1, -0.2, 0.3]])
+            with warnings.catch_warnings():
+                warnings.simplefilter("ignore")
+                with np.errstate(all="ignore"):
+                    btf = BeckeRTransform(1e-4, 1.5)
+                    g = AtomGrid(btf.transform_1d_grid(GaussLegendre(24)), degrees=[3], center=centre[0])
+                    d2 = np.sum((g.points - centre[0]) ** 2, axis=1)
+                    dens = sum(c * (a / np.pi) ** 1.5 * np.exp(-a * d2) for c, a in zip(rc, ra))
+                    q = centre + np.array([[0.4, 0.1, -0.3], [1.5, -1.0, 0.8]])
+                    np.random.seed(0)
+                    got = np.asarray(solve_poisson_robust(g, dens, InverseRTransform(btf), np.array([z]), centre)(q), dtype=float)
+                    want = coulomb_potential(q, np.tile(centre, (len(rc), 1)), rc, ra)
+            if got.shape != want.shape or not np.allclose(got, want, rtol=0, atol=1e-7):
+                self.violations.append((f"C:Robust:{sym}:differs-from-core-potential", f"robust solver on the {sym} core model after this history: "
+                                        f"{got}, analytic potential of the JSON parameters {want}", {}))
+            return _h(np.round(got, 6))
         if ev[0] == "EditC":
             self.last[0][...] *= 2.0
             self.edited.append(self.loaded[-1])
